@@ -465,12 +465,22 @@ func (tdsChan *Channel) NextPackageUntil(ctx context.Context, wait bool, process
 			// to prevent any leftovers that may impact later
 			// communications.
 			if ok, _ := isDoneFinal(pkg); !ok {
-				_, err := tdsChan.NextPackageUntil(ctx, wait, nil)
-				// Append any additional received EEDPackages to the
-				// EEDError.
-				var finalEEDError *EEDError
-				if err != nil && errors.As(err, &finalEEDError) {
-					eedError.EEDPackages = append(eedError.EEDPackages, finalEEDError.EEDPackages...)
+				for {
+					next, err := tdsChan.NextPackage(ctx, wait)
+					if err != nil {
+						break
+					}
+
+					// Append any additional received EEDPackages to the
+					// EEDError.
+					if eed, ok := next.(*EEDPackage); ok {
+						eedError.Add(eed)
+						continue
+					}
+
+					if ok, _ := isDoneFinal(next); ok {
+						break
+					}
 				}
 			}
 
